@@ -24,10 +24,9 @@ def zeros (α : Type) [Scalar α] (n : Nat) : List α := List.replicate n (nat 0
 
 structure ManLaws (A : Man α M) (Valid : M → Prop) (Dom : M → List α → Prop)
     (Compat : M → M → Prop) : Prop where
-  valid_rplus : ∀ m a, Valid m → a.length = A.dof m → Valid (A.rplus m a)
-  dof_rplus : ∀ m a, Valid m → a.length = A.dof m → A.dof (A.rplus m a) = A.dof m
+  valid_rplus : ∀ m a, Valid m → a.length = A.dof m → Dom m a → Valid (A.rplus m a)
+  dof_rplus : ∀ m a, Valid m → a.length = A.dof m → Dom m a → A.dof (A.rplus m a) = A.dof m
   compat_rplus : ∀ m a, Valid m → a.length = A.dof m → Dom m a → Compat (A.rplus m a) m
-  compat_refl : ∀ m, Valid m → Compat m m
   compat_dof : ∀ m1 m2, Compat m1 m2 → A.dof m1 = A.dof m2
   /-- `rminus` returns a tangent of length `dof` -/
   rminus_length : ∀ m1 m2, Valid m1 → Valid m2 → Compat m1 m2 →
@@ -191,7 +190,7 @@ section lift
 variable {A : Man α M} {Valid : M → Prop} {Dom : M → List α → Prop} {Compat : M → M → Prop}
 
 theorem spec_valid (hA : ManLaws A Valid Dom Compat) (ms : List M) (a : List α)
-    (hv : ∀ m ∈ ms, Valid m) (hl : a.length = (ms.map A.dof).sum) :
+    (hv : ∀ m ∈ ms, Valid m) (hl : a.length = (ms.map A.dof).sum) (hd : DomSegs A Dom ms a) :
     ∀ m' ∈ specRplus A ms a, Valid m' := by
   induction ms generalizing a with
   | nil => intro m' h; simp [specRplus] at h
@@ -201,19 +200,19 @@ theorem spec_valid (hA : ManLaws A Valid Dom Compat) (ms : List M) (a : List α)
     simp only [specRplus, List.mem_cons] at h
     rcases h with h | h
     · subst h
-      exact hA.valid_rplus m _ (hv m (by simp)) (by simp; omega)
-    · exact ih _ (fun x hx => hv x (by simp [hx])) (by simp; omega) m' h
+      exact hA.valid_rplus m _ (hv m (by simp)) (by simp; omega) hd.1
+    · exact ih _ (fun x hx => hv x (by simp [hx])) (by simp; omega) hd.2 m' h
 
 theorem spec_dofs (hA : ManLaws A Valid Dom Compat) (ms : List M) (a : List α)
-    (hv : ∀ m ∈ ms, Valid m) (hl : a.length = (ms.map A.dof).sum) :
+    (hv : ∀ m ∈ ms, Valid m) (hl : a.length = (ms.map A.dof).sum) (hd : DomSegs A Dom ms a) :
     (specRplus A ms a).map A.dof = ms.map A.dof := by
   induction ms generalizing a with
   | nil => rfl
   | cons m ms ih =>
     simp only [List.map_cons, List.sum_cons] at hl
     simp only [specRplus, List.map_cons]
-    rw [hA.dof_rplus m _ (hv m (by simp)) (by simp; omega),
-      ih _ (fun x hx => hv x (by simp [hx])) (by simp; omega)]
+    rw [hA.dof_rplus m _ (hv m (by simp)) (by simp; omega) hd.1,
+      ih _ (fun x hx => hv x (by simp [hx])) (by simp; omega) hd.2]
 
 theorem spec_compat (hA : ManLaws A Valid Dom Compat) (ms : List M) (a : List α)
     (hv : ∀ m ∈ ms, Valid m) (hl : a.length = (ms.map A.dof).sum) (hd : DomSegs A Dom ms a) :
@@ -284,26 +283,20 @@ theorem vector_laws (hA : ManLaws A Valid Dom Compat) (hs : DofStatic A) (uninit
     ManLaws (vector A uninit) (fun ms => ∀ m ∈ ms, Valid m) (DomSegs A Dom)
       (List.Forall₂ Compat) where
   valid_rplus := by
-    intro ms a hv hl
+    intro ms a hv hl hd
     change ∀ m ∈ vectorRplus A ms a, Valid m
     rw [vectorRplus_eq_spec]
-    exact spec_valid hA ms a hv (by rw [hl]; exact vectorDof_eq_sum A hs ms)
+    exact spec_valid hA ms a hv (by rw [hl]; exact vectorDof_eq_sum A hs ms) hd
   dof_rplus := by
-    intro ms a hv hl
+    intro ms a hv hl hd
     change vectorDof A (vectorRplus A ms a) = vectorDof A ms
     rw [vectorRplus_eq_spec, vectorDof_eq_sum A hs, vectorDof_eq_sum A hs,
-      spec_dofs hA ms a hv (by rw [hl]; exact vectorDof_eq_sum A hs ms)]
+      spec_dofs hA ms a hv (by rw [hl]; exact vectorDof_eq_sum A hs ms) hd]
   compat_rplus := by
     intro ms a hv hl hd
     change List.Forall₂ Compat (vectorRplus A ms a) ms
     rw [vectorRplus_eq_spec]
     exact spec_compat hA ms a hv (by rw [hl]; exact vectorDof_eq_sum A hs ms) hd
-  compat_refl := by
-    intro ms hv
-    induction ms with
-    | nil => exact List.Forall₂.nil
-    | cons m ms ih =>
-      exact List.Forall₂.cons (hA.compat_refl m (hv m (by simp))) (ih (fun x hx => hv x (by simp [hx])))
   compat_dof := by
     intro m1 m2 hc
     change vectorDof A m1 = vectorDof A m2
@@ -323,7 +316,7 @@ theorem vector_laws (hA : ManLaws A Valid Dom Compat) (hs : DofStatic A) (uninit
     change vectorRminus A uninit (vectorRplus A ms a) ms = _
     rw [vectorRplus_eq_spec,
       vectorRminus_eq_spec A hs uninit (pairsOk_of hA (spec_compat hA ms a hv hl' hd)
-        (spec_valid hA ms a hv hl') hv)]
+        (spec_valid hA ms a hv hl' hd) hv)]
     exact spec_rminus_rplus hA ms a hv hl' hd
   rplus_rminus := by
     intro m m2 d hv hv2 hc hd
@@ -334,13 +327,14 @@ theorem vector_laws (hA : ManLaws A Valid Dom Compat) (hs : DofStatic A) (uninit
     exact spec_rplus_rminus hA hc hv2 hv d hd
   rminus_self := by
     intro ms hv
-    have hc : List.Forall₂ Compat ms ms := by
+    have hp : PairsOk A ms ms := by
       induction ms with
       | nil => exact List.Forall₂.nil
       | cons m ms ih =>
-        exact List.Forall₂.cons (hA.compat_refl m (hv m (by simp))) (ih (fun x hx => hv x (by simp [hx])))
+        exact List.Forall₂.cons ⟨_, hA.rminus_self m (hv m (by simp)), by simp [zeros]⟩
+          (ih (fun x hx => hv x (by simp [hx])))
     change vectorRminus A uninit ms ms = .ok (zeros α (vectorDof A ms))
-    rw [vectorRminus_eq_spec A hs uninit (pairsOk_of hA hc hv hv), vectorDof_eq_sum A hs]
+    rw [vectorRminus_eq_spec A hs uninit hp, vectorDof_eq_sum A hs]
     exact spec_rminus_self hA ms hv
 
 end lift
